@@ -3,6 +3,7 @@ module kvassverif
 go 1.17
 
 require (
+	github.com/gin-gonic/gin v1.6.3
 	github.com/prometheus/client_golang v1.12.1
 	github.com/prometheus/prometheus v2.28.1+incompatible
 	github.com/sirupsen/logrus v1.8.1
@@ -21,6 +22,7 @@ require (
 	github.com/beorn7/perks v1.0.1 // indirect
 	github.com/cespare/xxhash/v2 v2.1.2 // indirect
 	github.com/coreos/go-semver v0.3.0 // indirect
+	github.com/cssivision/reverseproxy v0.0.1 // indirect
 	github.com/davecgh/go-spew v1.1.1 // indirect
 	github.com/dennwc/varint v1.0.0 // indirect
 	github.com/edsrzf/mmap-go v1.1.0 // indirect
@@ -28,7 +30,6 @@ require (
 	github.com/felixge/httpsnoop v1.0.2 // indirect
 	github.com/gin-contrib/pprof v1.3.0 // indirect
 	github.com/gin-contrib/sse v0.1.0 // indirect
-	github.com/gin-gonic/gin v1.6.3 // indirect
 	github.com/go-kit/log v0.2.0 // indirect
 	github.com/go-logfmt/logfmt v0.5.1 // indirect
 	github.com/go-logr/logr v1.2.2 // indirect
